@@ -178,6 +178,17 @@ CLAIMS["C17"] = dict(
     note="The span of a run is a length-only model of U64Segment (decided under C34). Invariant assumed for versions(): runs are non-empty.",
 )
 
+CLAIMS["C27"] = dict(
+    engine="kani-transplant",
+    technique="bounded symbolic execution of the repetition/definition control-word writer and parser (ControlWordIterator family, build_control_word_iterator, ControlWordParser, log_2_ceil) with Kani+CBMC over symbolic levels and maxima",
+    text=("Decides that control words carry repetition/definition levels losslessly for every shape (rep+def, rep only, def only, none) and every maximum "
+          "level <= 4095 (1-, 2- and 4-byte words): the writer's width equals the parser's, parsed levels equal the written ones, the row/visibility/validity "
+          "description the writer returns is the one the reader re-derives, log_2_ceil is the bit length for all u32, and the iterator ends with None (a "
+          "real panic at that point was found and fixed). Converting Arrow validity/offset buffers to levels and back (RepDefBuilder/Unraveler) and the "
+          "mini-block repetition index are NOT claimed."),
+    note="Restricted to the control-word layer; levels <= 4095.",
+)
+
 _IO = "truth lives in async object-store/tokio orchestration (crash points, interleavings, listings); Kani/CBMC has no model of tokio or object_store and no pure kernel implies the statement"
 NOT_APPLICABLE.update({
     "C01": "commit atomicity over crash points: " + _IO,
@@ -206,5 +217,5 @@ NOT_APPLICABLE.update({
     "C42": "relocatability is a statement about every path written by every writer being relative; decided by I/O",
 })
 _PLANNED = "planned in DESIGN.md §5 but its check is not built yet, so it is not claimed"
-for _p in ["C09", "C27", "C36", "C43"]:
+for _p in ["C09", "C36", "C43"]:
     NOT_APPLICABLE.setdefault(_p, _PLANNED)
